@@ -133,7 +133,9 @@ def switch_programs(draw, big=False):
                 default_done = True
             else:
                 break
-        arm = {"labels": labels, "add": aid, "brk": d(_int(0, 5)) != 0 or big, "duff": None, "inner": None}
+        arm = {"labels": labels, "add": aid, "brk": d(_int(0, 5)) != 0 or big, "duff": None, "inner": None,
+               # the labels of this arm sit inside a loop, a selection statement or nested blocks within the switch body
+               "wrap": None if big or d(_int(0, 5)) else d(_pick(["do", "for", "while", "if", "block", "dowhile-if"]))}
         aid += 1
         if not big and i < len(keys) and d(_int(0, 9)) == 0:
             arm["duff"] = (keys[i], aid)
@@ -153,10 +155,16 @@ def switch_programs(draw, big=False):
     # source
     ind = "\t\t"
     body = []
+    WRAP = {"do": ("do {", "} while (0);"), "for": ("for (;;) {", "break; }"), "while": ("while (1) {", "break; }"), "if": ("if (x == x) {", "}"), "block": ("{ {", "} }"),
+            "dowhile-if": ("do { if (1) {", "} } while (0);")}
     for a in arms:
+        if a["wrap"]:
+            body.append(ind + WRAP[a["wrap"]][0])
         for l in a["labels"]:
             body.append("\tdefault:" if l == "default" else "\tcase %s:" % cm.literal(l, P))
         line = ind + "r += %d;" % a["add"]
+        if a["wrap"]:
+            line += " " + WRAP[a["wrap"]][1]
         if a["duff"]:
             line += " if (r < 0) { case %s: r += %d; } r += 1000000;" % (cm.literal(a["duff"][0], P), a["duff"][1])
         if a["inner"]:
